@@ -45,3 +45,11 @@ Definition exactly_once (ft : dict fexp) (gt : dict gate_cfg) (g : graph) (pv : 
   let ran := spec_ran ft gt g pv in
   forallb (fun n => if dmem ran (n_name n) && negb (upstream_default g n)
                     then Nat.eqb (count_name (n_name n) log) 1 else true) (g_nodes g).
+
+Definition map_results_eqb (m : err + list result) (real : list (nat * dict val * option err)) : bool :=
+  match m with
+  | inl _ => false
+  | inr rs => list_eqb (fun (a : result) (b : nat * dict val * option err) =>
+                Nat.eqb (res_status a) (fst (fst b)) && dict_eqb val_eqb (res_values a) (snd (fst b)) &&
+                opt_eqb Pos.eqb (res_err a) (snd b)) rs real
+  end.
